@@ -1,5 +1,5 @@
 """Registry of units and per-property texts (used for MANIFEST.json and the evidence files)."""
-UNITS = ["frame", "codec", "codec16", "gui", "per", "rc4", "engine", "session", "nego", "cssp", "mcs"]
+UNITS = ["frame", "codec", "codec16", "gui", "per", "rc4", "engine", "session", "nego", "cssp", "mcs", "sec"]
 
 ENGINE_ASM = ("engine contract (prelude/model.rs): Component/Trame/Array/DynOption of src/model/data.rs are assumed to "
               "serialize as the in-order concatenation of their non-skipped fields and to read field by field "
@@ -8,7 +8,7 @@ IO_ASM = "std::io::Read/Write + byteorder contracts (prelude/base.rs): sized rea
 DUPLEX_ASM = "transport duplex axiom (prelude/base.rs axiom_duplex): reading does not change what was written and vice versa (rule R3 adds the marker bound)"
 
 # units under construction: never part of a property check
-DEV_UNITS = {"codec16", "rc4", "session", "cssp", "mcs"}
+DEV_UNITS = {"codec16", "rc4", "session", "mcs", "sec"}
 
 PROPERTIES = {
     "C13": dict(
@@ -83,6 +83,19 @@ PROPERTIES.update({
         level_note="trusted: " + TLS_ASM + "; " + IO_ASM + "; " + ENGINE_ASM + " (the negotiation layout is static, so its wire decode is derived, not assumed); the Client-Info precondition (sec::connect requires TLS) is checked in unit connector",
         assumptions=[TLS_ASM, IO_ASM, ENGINE_ASM, DUPLEX_ASM],
         design_ref="DESIGN.md §7 C02"),
+})
+
+CRYPTO_ASM = "that no party without the NTLM session keys can produce a token which gss_unwrapex accepts is a cryptographic assumption (64-bit truncated HMAC-MD5 under RC4): outside any contract; the checks prove the acceptance condition, not unforgeability"
+DER_ASM = "ASN.1 DER/BER through the yasna crate and src/nla/asn1.rs is external: the TSRequest encoders/decoders are abstract functions (assumed to implement MS-CSSP)"
+PROPERTIES.update({
+    "C01": dict(
+        scope="cssp_connect (real body): the credentials message is built and written only at a point where the unsealed server reply equals, as little-endian integers, the subject public key of the certificate of THIS link plus one "
+              "(claim validated-before-credentials); the reply is what the security interface unsealed from the bytes read off the wire (reply-was-unsealed-from-the-wire); the pubKeyAuth sent seals this link's key; on a failed comparison "
+              "nothing is written after the second message (nothing-written-after-failed-validation); Ok implies exactly three messages request / authenticate / authinfo in that order",
+        technique="contract-based deductive verification: Verus (z3); ordering and comparison properties as asserted in-body claims over ghost snapshots of the link trace and of the security context",
+        level_note="trusted: " + DER_ASM + "; num-bigint / x509-parser / native-tls certificate accessors (prelude/nla.rs); the GenericSecurityService contract (unseal_spec) is discharged for the NTLM implementation in unit ntlm; " + CRYPTO_ASM,
+        assumptions=[DER_ASM, TLS_ASM, IO_ASM, CRYPTO_ASM, "num-bigint from_bytes_le/+/!= and x509-parser subject_public_key accessors behave as documented"],
+        design_ref="DESIGN.md §7 C01"),
 })
 
 NOT_APPLICABLE = {
